@@ -21,6 +21,10 @@ void op_drop(int k) { if (k < 64) dsim::cell_set(OPS + 4 * k, -1); }
 template <typename T> struct V;
 template <> struct V<long> { static long get(long &x) { return x; } };
 template <> struct V<vs::Counted> { static long get(vs::Counted &x) { return x.value(); } };
+// an item type with an initializer-list constructor, pushed emplace-style: push(n, v) must deliver vector(n, v) = {v, v}, whichever path delivers it
+using Vec = std::vector<long>;
+template <> struct V<Vec> { static long get(Vec &x) { if (x.size() != 2 || x[0] != x[1]) dsim::fail("C09.item_altered", "pushed with (2, v): expected the item {v, v}, popped an item of %zu elements starting with %ld", x.size(), x.empty() ? -1 : x[0]); return x[0]; } };
+template <typename T> bool do_push(cocls::queue<T> &q, long v) { if constexpr (std::is_same_v<T, Vec>) return q.push((std::size_t)2, v); else return q.push(v); }
 
 void log_pop(int consumer, long v) { long k = dsim::cell_add(NPOPPED, 1) - 1; dsim::cell_set(POPPED + 2 * (int)k, consumer); dsim::cell_set(POPPED + 2 * (int)k + 1, v); dsim::event("popped", consumer, v); }
 
@@ -58,7 +62,7 @@ template <typename T> void single_thread() {
         if (op == 0 || op == 3) {            // push
             long v = next_val++;
             bool woke;
-            if constexpr (is_void) woke = q->push(); else woke = q->push(v);
+            if constexpr (is_void) woke = q->push(); else woke = do_push(*q, v);
             bool m_woke = !m_wait.empty();
             if (m_woke) { Pop &p = pops[m_wait.front()]; m_wait.pop_front(); p.m_done = true; p.m_kind = 1; p.m_val = is_void ? 0 : v; }
             else if (is_void) m_count++; else m_items.push_back(v);
@@ -169,7 +173,7 @@ template <typename T> void multi_thread() {
             for (int j = 0; j < pushes[i]; j++) {
                 long v = (i + 1) * 1000 + j;
                 int k = op_begin(0, v);
-                if constexpr (is_void) q->push(); else q->push(v);
+                if constexpr (is_void) q->push(); else do_push(*q, v);
                 op_end(k, v);
             }
         });
@@ -232,8 +236,8 @@ template <typename T> void multi_thread() {
 } // namespace
 
 void dsim_scenario() {
-    int ty = dsim::choose(3), mode = dsim::choose(3);
-    dsim::plan_note("T=%s ", ty == 0 ? "long" : ty == 1 ? "Counted" : "void");
-    if (mode == 0) { if (ty == 0) single_thread<long>(); else if (ty == 1) single_thread<vs::Counted>(); else single_thread<void>(); }
-    else { if (ty == 0) multi_thread<long>(); else if (ty == 1) multi_thread<vs::Counted>(); else multi_thread<void>(); }
+    int ty = dsim::choose(4), mode = dsim::choose(3);
+    dsim::plan_note("T=%s ", ty == 0 ? "long" : ty == 1 ? "Counted" : ty == 2 ? "void" : "vector(emplace)");
+    if (mode == 0) { if (ty == 0) single_thread<long>(); else if (ty == 1) single_thread<vs::Counted>(); else if (ty == 2) single_thread<void>(); else single_thread<Vec>(); }
+    else { if (ty == 0) multi_thread<long>(); else if (ty == 1) multi_thread<vs::Counted>(); else if (ty == 2) multi_thread<void>(); else multi_thread<Vec>(); }
 }
